@@ -372,7 +372,11 @@ func TestC11(t *testing.T) {
 				step = 1
 			}
 			for off := 0; off < len(b.files[rel]); off++ {
-				for m := 1 + off%step; m < 256; m += step {
+				for m := 1; m < 256; m++ {
+					// masks 1..15 turn one decimal digit into another (shard names, checksums): always; the rest sampled in quick
+					if m > 15 && (m-1)%step != off%step {
+						continue
+					}
 					f := fault{rel: rel, kind: "flip", off: off, xor: byte(m)}
 					b.apply(f)
 					o := b.loadOnce(1 + (off+m)%3)
